@@ -43,13 +43,15 @@ Record oconc := {
   cc_eff : list nat;                        (* the instance of every granted statement, in order *)
   cc_log : list (nat * ocall);
   cc_errs : list bool;
+  cc_done : list bool;                      (* per instance: its Rotate returned (crashed instances stop where the schedule ends) *)
   cc_ttl : list string; cc_policy : list string; cc_settings : list (Z * string) }.
 Record case := {
   c_id : Z;
   c_init : list (Z * string);               (* settings rows before the first run *)
   c_init_ttl : list string; c_init_policy : list string;   (* table state before the first run, order of all_tables *)
   c_runs : list orun;
-  c_conc : option oconc }.                  (* after the runs: concurrent instances *)
+  c_conc : option oconc;                    (* after the runs: concurrent instances *)
+  c_after : list orun }.                    (* sequential runs after those *)
 
 Fixpoint lookup (l : list (Z * string)) (k : Z) : string :=
   match l with [] => "" | (k', v) :: r => if k =? k' then v else lookup r k end.
@@ -106,16 +108,19 @@ Definition conc_as_run (o : oconc) : orun :=
   {| r_cfg := {| cluster := ""; distributed := false; days := []; drop_days := 0; storage_policy := "" |};
      r_fault := None; r_kind := KDirect; r_parse := []; r_log := []; r_err := false;
      r_ttl := cc_ttl o; r_policy := cc_policy o; r_settings := cc_settings o |}.
-Definition conc_matches (d : db) (o : oconc) : bool :=
+Definition conc_matches (d : db) (o : oconc) : bool * db :=
   let s := sched_run (cc_eff o) (init_sys d (cc_cfgs o)) in
-  list_eqb (fun a b => Nat.eqb (fst a) (fst b) && ocall_eqb (snd a) (snd b))
-           (map (render_conc (cc_cfgs o)) (rev (s_log s))) (cc_log o) &&
-  all_done s && forallb negb (cc_errs o) && Nat.eqb (List.length (cc_errs o)) (List.length (cc_cfgs o)) &&
-  state_eqb (s_db s) (conc_as_run o).
+  (list_eqb (fun a b => Nat.eqb (fst a) (fst b) && ocall_eqb (snd a) (snd b))
+            (map (render_conc (cc_cfgs o)) (rev (s_log s))) (cc_log o) &&
+   list_eqb Bool.eqb (map done (s_insts s)) (cc_done o) &&
+   forallb negb (cc_errs o) && Nat.eqb (List.length (cc_errs o)) (List.length (cc_cfgs o)) &&
+   state_eqb (s_db s) (conc_as_run o), s_db s).
 
 Definition model_mismatch (c : case) : bool :=
   let '(b, d) := runs_match (init_db c) (c_runs c) in
-  negb (b && match c_conc c with None => true | Some o => conc_matches d o end).
+  let '(b2, d2) := match c_conc c with None => (true, d) | Some o => conc_matches d o end in
+  let '(b3, _) := runs_match d2 (c_after c) in
+  negb (b && b2 && b3).
 
 (* ------------------------------------------------------------------ the property's oracle on observed runs *)
 (* text helpers *)
@@ -352,11 +357,13 @@ Definition conc_ok (start_consistent : bool) (o : oconc) : bool :=
   forallb negb (cc_errs o) &&
   match cc_cfgs o with
   | [] => true
-  | c :: r => negb (forallb (config_eqb c) r) || negb start_consistent || applied_b c (obs_db (conc_as_run o))
+  | c :: r => negb (forallb (config_eqb c) r) || negb start_consistent || negb (forallb (fun x => x) (cc_done o)) ||
+              applied_b c (obs_db (conc_as_run o))
   end.
 Definition spec_violation (c : case) : bool :=
   let sc := consistent_b (init_db c) in
-  negb (runs_ok sc None (c_runs c) && match c_conc c with None => true | Some o => conc_ok sc o end).
+  negb (runs_ok sc None (c_runs c) && match c_conc c with None => true | Some o => conc_ok sc o end &&
+        runs_ok sc None (c_after c)).
 
 Definition mismatches (cs : list case) : list Z := map c_id (filter model_mismatch cs).
 Definition spec_violations (cs : list case) : list Z := map c_id (filter spec_violation cs).
